@@ -1,0 +1,28 @@
+//go:build verif
+
+package dashboards
+
+// C19 for dashboards: every file-system call on a dashboard file goes through
+// getDashboardDetailsPath, which confines the id to its last path element
+// (string-level fact: ASSUMED; see pkg/lookups/zz_verif_contracts.go for the
+// discipline).  Checked by /verif/bin/govc.  Comment-only file.
+
+//@ func getDashboardDetailsPath
+//@   assumed
+//@   pure
+//@   ensures uf("confined", bool, result)
+//@ end
+
+//@ func getDashboard
+//@   props C19
+//@   site call os.ReadFile #1:
+//@     assert [read-confined] uf("confined", bool, arg0)
+//@ end
+
+//@ func toggleFavorite
+//@   props C19
+//@   site call os.ReadFile #1:
+//@     assert [read-confined] uf("confined", bool, arg0)
+//@   site call os.WriteFile #1:
+//@     assert [write-confined] uf("confined", bool, arg0)
+//@ end
